@@ -68,15 +68,22 @@ def universe(seed, uid):
     # a holder class with members declared as bases
     roots = [t['name'] for t in types if any(x['base'] == t['name'] for x in types)] or [types[0]['name']]
     hb = rng.choice(roots)
+    # which declaration of a base the interface comes across first is not always the plain one: an array of it, a repeated or
+    # mandatory member of its type are customized variants of the class
+    hf = [['one', {'ref': hb}], ['many', {'array': {'ref': hb}}], ['must', {'ref': hb, 'min_occurs': 1}]]
+    rng.shuffle(hf)
     types.append({'name': 'Holder', 'ns': ns, 'base': None, 'has_xmldata': False,
-                  'fields': [['one', {'ref': hb}], ['many', {'array': {'ref': hb}}], ['n', {'prim': 'Integer', 'facets': {}}]]})
+                  'fields': hf[:rng.randint(1, 3)] + [['n', {'prim': 'Integer', 'facets': {}}]]})
     methods = []
     for k, b in enumerate(roots[:3]):
-        methods.append({'name': 'plain%d' % k, 'args': [['p', {'ref': b}]], 'returns': [{'ref': b}], 'style': 'wrapped'})
-        methods.append({'name': 'arr%d' % k, 'args': [['p', {'array': {'ref': b}}]], 'returns': [{'array': {'ref': b}}], 'style': 'wrapped'})
-        methods.append({'name': 'rep%d' % k, 'args': [['p', {'seq': {'ref': b}, 'max': 'unbounded'}]], 'returns': [{'seq': {'ref': b}, 'max': 'unbounded'}],
-                        'style': 'wrapped'})
+        ms = [{'name': 'plain%d' % k, 'args': [['p', {'ref': b}]], 'returns': [{'ref': b}], 'style': 'wrapped'},
+              {'name': 'arr%d' % k, 'args': [['p', {'array': {'ref': b}}]], 'returns': [{'array': {'ref': b}}], 'style': 'wrapped'},
+              {'name': 'rep%d' % k, 'args': [['p', {'seq': {'ref': b}, 'max': 'unbounded'}]], 'returns': [{'seq': {'ref': b}, 'max': 'unbounded'}],
+               'style': 'wrapped'}]
+        rng.shuffle(ms)
+        methods += ms[:rng.randint(1, 3)]
     methods.append({'name': 'held', 'args': [['h', {'ref': 'Holder'}]], 'returns': [{'ref': 'Holder'}], 'style': 'wrapped'})
+    rng.shuffle(methods)
     return {'uid': uid, 'tns': tns, 'types': types, 'services': [{'name': 'Svc', 'methods': methods}]}
 
 
@@ -108,9 +115,16 @@ def bare_subclass_value(ir, t, rng):
         return out or [name]
     if 'ref' in t:
         if t['ref'] == 'Holder':
-            hb = [ft for fn, ft in gen.all_fields(ir, 'Holder') if fn == 'one'][0]['ref']
-            return {'__class__': 'Holder', 'one': {'__class__': rng.choice(subs(hb))},
-                    'many': [{'__class__': hb}, {'__class__': rng.choice(subs(hb))}]}
+            hfields = dict(gen.all_fields(ir, 'Holder'))
+            hb = [(ft.get('array') or ft)['ref'] for fn, ft in hfields.items() if fn in ('one', 'many', 'must')][0]
+            v = {'__class__': 'Holder'}
+            if 'one' in hfields:
+                v['one'] = {'__class__': rng.choice(subs(hb))}
+            if 'must' in hfields:
+                v['must'] = {'__class__': rng.choice(subs(hb))}
+            if 'many' in hfields:
+                v['many'] = [{'__class__': hb}, {'__class__': rng.choice(subs(hb))}]
+            return v
         return {'__class__': rng.choice(subs(t['ref']))}
     inner = t.get('array') or t.get('seq')
     return [{'__class__': inner['ref']}, {'__class__': rng.choice(subs(inner['ref']))}, {'__class__': rng.choice(subs(inner['ref']))}]
